@@ -190,6 +190,23 @@ def fixed_streams():
     ]
 
 
+def many_types_stream(n=1100, every=97):
+    """more distinct record types in one stream than any table of a plausible fixed size holds, with ONE type that keeps
+    recurring in between (a heartbeat record in a long-running job)"""
+    from flow.record import RecordDescriptor
+
+    kw = dict(_generated=GEN)
+    H = RecordDescriptor("many/heartbeat", [("varint", "seq"), ("string", "s")])
+    out = [H(0, "first", **kw)]
+    for i in range(n):
+        T = RecordDescriptor("many/t", [("varint", "n"), ("string", "f%d" % i)])          # the same name, another field list each time
+        out.append(T(i, "v", **kw))
+        if i % every == every - 1:
+            out.append(H(i, "again", **kw))
+    out.append(H(n, "last", **kw))
+    return out
+
+
 def big_streams():
     """a stream with frames far beyond 64 KiB whose content compresses very well (and one that does not)"""
     import random
